@@ -469,7 +469,12 @@ def pytest_sessionfinish(session, exitstatus):
                 cr = ChangeRecorder()
                 apply_all(used_changes, cr)
                 cr.virtual_write()
-                apply_all(changes[flag], cr)
+                # The changes of this category have to be applied together with the
+                # already approved changes (like it is done at the end), because
+                # changes of different categories can edit the same list or dict
+                # and would overlap if they are applied one after the other.
+                cr.clear_replacements()
+                apply_all(used_changes + changes[flag], cr)
 
                 any_changes = False
 
